@@ -13,7 +13,11 @@ use crate::rng::TestRng;
 use crate::{scn, Scenario};
 
 pub fn scenarios() -> Vec<Scenario> {
-    vec![scn!(scenario_cheaters_named, 4), scn!(scenario_cancelling_errors, 1)]
+    vec![
+        scn!(scenario_cheaters_named, 4),
+        scn!(scenario_cancelling_errors, 1),
+        crate::wrap::scn_sign_aggregate(1),
+    ]
 }
 
 const TAMPER_KINDS: [&str; 5] = ["add-random", "add-one", "zero-share", "other-signers-share", "random-share"];
